@@ -592,6 +592,44 @@ def run(chk):
     if uses < 2:
         raise core.AnalysisBroken("EclIO::EGrid: fewer than 2 uses of the NNC1/NNC2 members found")
 
+    # ---- C13.gridhead: the dimensions travel through GRIDHEAD slots 1, 2, 3 in the order nx, ny, nz on both sides
+    r_gh = chk.rule("C13.gridhead", "GRIDHEAD: EclipseGrid::save stores (nx, ny, nz) in slots 1, 2, 3 and every reader (EclipseGrid's EGRID loader, EclIO::EGrid for the global grid and for an LGR's host) takes axis a from slot a + 1", floor=4)
+    AX = {"m_nx": 0, "m_ny": 1, "m_nz": 2}
+    n_sites = 0
+    for f in fx.fns:
+        if not f.get("body") or not f["file"].endswith(("EclipseGrid.cpp", "EGrid.cpp")):
+            continue
+        groups = {}
+        for n in walk(f["body"]):
+            if n["k"] != "Bin" or not n.get("asg") or n.get("op") != "=":
+                continue
+            l_, r_ = strip(n["c"][0]), strip(n["c"][1])
+
+            def slot(e):
+                e = strip(e)
+                b = i_ = None
+                if e.get("k") == "Idx":
+                    b, i_ = strip(e["c"][0]), strip(e["c"][1])
+                elif e.get("k") == "OpCall" and e.get("op") == "[]" and len(e.get("a") or []) == 2:
+                    b, i_ = strip(e["a"][0]), strip(e["a"][1])
+                if b is not None and i_.get("k") == "Int":
+                    return (b.get("n"), int(i_["v"]))
+                return None
+            ls, rs_ = slot(l_), slot(r_)
+            if ls and ls[0] == "gridhead" and ls[1] in (1, 2, 3):
+                ax = rs_[1] if rs_ else AX.get(r_.get("n"))
+                groups.setdefault(("write", n["l"] // 8), []).append((ls[1], ax, n))
+            elif rs_ and rs_[0] == "gridhead" and rs_[1] in (1, 2, 3):
+                ax = ls[1] if ls else AX.get(l_.get("n"))
+                groups.setdefault(("read:" + (ls[0] if ls else "dims"), n["l"] // 8), []).append((rs_[1], ax, n))
+        for (kind, _), items in sorted(groups.items()):
+            n_sites += 1
+            key = "%s:%s@%d" % (f["q"].split("::")[-1], kind, n_sites)
+            pairs = sorted((sl, ax) for sl, ax, n in items)
+            chk.instance(r_gh, key, sample=dict(function=f["q"], kind=kind, slot_axis=pairs))
+            if pairs != [(1, 0), (2, 1), (3, 2)]:
+                chk.violation(r_gh, key, "%s %s GRIDHEAD as (slot, axis) = %s; the dimensions are (1, x) (2, y) (3, z): a grid that is not a cube comes back with swapped or repeated dimensions" % (f["q"], "fills" if kind == "write" else "reads", pairs), f["file"], items[0][2]["l"])
+
     # ---- C13.ijk: every implementation of (i,j,k) <-> global index uses the natural ordering
     r_ijk = chk.rule("C13.ijk", "all implementations of the cell numbering agree with the natural ordering: global = i + nx (j + ny k) (GridDims::getGlobalIndex, EGrid::global_index / active_index), and the inverse splits a global index as i = g mod nx, j = (g div nx) mod ny, k = g div (nx ny) - written either by successive division or plane first (GridDims::getIJK, EGrid::ijk_from_global_index / ijk_from_active_index / hostCellsIJK, ExtSmryOutput::ijk_from_global_index, ESmry::ijk_from_global_index: the same, one-based)", floor=8)
     from verif import symb as sy
